@@ -68,7 +68,10 @@ func checkC02(c *core.Ctx) {
 	var wg sync.WaitGroup
 	if c.Replay == "" {
 		wg.Add(1)
-		go func() { defer wg.Done(); designAndKernelNitrogen(c, worker, []string{"K02_Conservation", "K02_ClampFlag"}) }()
+		go func() {
+			defer wg.Done()
+			designAndKernelNitrogen(c, worker, []string{"K02_Conservation", "K02_ClampFlag"})
+		}()
 	} else {
 		designAndKernelNitrogen(c, worker, []string{"K02_Conservation", "K02_ClampFlag"})
 	}
